@@ -29,18 +29,21 @@ RULE = ("exhaustive product for connect(starttls=True/False): STARTTLS capabilit
         "histories {never connected, connect failed at each step, authentication refused, "
         "authenticated, after logout, authenticated then reconnect refused} x every public "
         "callable of Client found by introspection (arguments synthesised from the "
-        "signature). Non-trivial = every case; distinct = distinct configurations.")
+        "signature) - both enumerated completely in both tiers; plus random histories of "
+        "3-10 steps on one client object mixing connects (random fault / TLS outcome / SASL "
+        "lists) with calls of random public callables (quick 1 500, thorough 100 000). "
+        "Non-trivial = every case; distinct = distinct configurations / histories.")
 ASSUMPTIONS = [
     "the transport records every byte written with the channel (plain/TLS) it was written on",
     "credential-bearing = the base64 or raw form of login / password / PLAIN payload",
     "private helpers (names starting with '_') that no public method reaches are not "
     "exercised; methods added later are picked up by introspection",
 ]
-EXHAUSTIVE = {"quick": True, "thorough": True}
+EXHAUSTIVE = {"quick": False, "thorough": False}
 FLOORS = {"quick": {"connect-configurations": 2800, "tls-handshakes": 600,
-                    "history-calls": 150, "callables": 10},
+                    "history-calls": 150, "callables": 10, "random-histories": 1200},
           "thorough": {"connect-configurations": 2800, "tls-handshakes": 600,
-                       "history-calls": 150, "callables": 10}}
+                       "history-calls": 150, "callables": 10, "random-histories": 90000}}
 SHARD_TIMEOUT = {"quick": 600, "thorough": 3000}
 
 LOGIN, PW = "alice-login", "s3cr3t-passw0rd"
@@ -71,6 +74,9 @@ def plan(tier, seed):
     n = len(connect_cases())
     shards = [{"w": "connect", "range": [s, e]} for s, e in split(n, 15)]
     shards.append({"w": "histories"})
+    nr = 1500 if tier == "quick" else 100000
+    for i, (s, e) in enumerate(split(nr, 8 if tier == "quick" else 48)):
+        shards.append({"w": "random-histories", "n": e - s, "rs": seed * 1000003 + i})
     return shards
 
 
@@ -275,9 +281,80 @@ def run_histories(res: Result):
     res.sample({"workload": "histories", "histories": HISTORIES, "callables": names}, 1)
 
 
+def run_random_histories(shard, res: Result):
+    """Random longer histories on ONE client object: connects with random server
+    behaviour interleaved with calls of random public callables; after every step the
+    trace rules are evaluated against the connection that is current at that moment."""
+    rng = random.Random(shard["rs"])
+    names = [n for n in public_callables() if n != "connect"]
+    users = {LOGIN.encode(): PW.encode()}
+    for i in range(shard["n"]):
+        sess = mslab.Session(ms.Server(users=users))
+        trace = []
+        for k in range(rng.randint(3, 10)):
+            if rng.random() < 0.4:
+                starttls = rng.random() < 0.5
+                step = rng.choice(["greeting", "STARTTLS", "post-tls-caps", "auth-verdict"])
+                f = rng.choice(FAULTS)
+                pre, post = rng.choice(SASLS)
+                cap = rng.random() < 0.8
+                tls = rng.choice(TLS) if starttls else "ok"
+                faults = {step: f} if f else {}
+                sess.server = ms.Server(users=users, sasl=list(pre),
+                                        post_tls_caps=list(post) if post is not None else None,
+                                        starttls=cap, faults=faults, encodings="quoted",
+                                        scripts={b"s": b"keep;\r\n"})
+                sess.wire = ms.Wire()
+                sess.tls_outcome = tls
+                out = sess.call("connect", LOGIN, PW, starttls=starttls,
+                                authmech=rng.choice([None, "PLAIN", "LOGIN"]))
+                trace.append(["connect", {"starttls": starttls, "fault": [step, f], "tls": tls,
+                                          "announces_STARTTLS": cap, "sasl": [pre, post]},
+                              repr(out)[:80]])
+                must_fail = starttls and (not cap or tls != "ok" or
+                                          (f is not None and step in ("greeting", "STARTTLS",
+                                                                      "post-tls-caps")) or
+                                          (post is not None and len(post) == 0))
+                problems = check_trace(sess, sess.server, starttls, out, res, {}, must_fail)
+                if not must_fail and out == ("ret", True) and not sess.server.authenticated:
+                    problems.append(("connect-true-but-server-did-not-accept", "-"))
+            else:
+                name = rng.choice(names)
+                srv = sess.server
+                was_auth = srv.authenticated
+                mark = sess.wire.mark()
+                out = sess.call(name, *synth_args(name))
+                sent = sess.wire.sent_since(mark)
+                trace.append([name, repr(out)[:60]])
+                cmds, left, issues = ms.parse_all(sent)
+                script_verbs = [c[0] for c in cmds if c[0] in ms.SCRIPT_VERBS]
+                problems = []
+                if script_verbs and not was_auth:
+                    problems.append(("script-command-before-authentication",
+                                     "%s sent %s" % (name, script_verbs)))
+                if not was_auth and name in ("havespace", "listscripts", "getscript",
+                                             "putscript", "checkscript", "deletescript",
+                                             "renamescript", "setactive"):
+                    if not (out[0] == "exc" and out[1] == "Error" and not sent):
+                        problems.append(("unauthenticated-call-did-not-refuse", name))
+            res.count("random-history-steps")
+            res.monitor("trace-spec", bool(problems))
+            if problems:
+                res.violation({"rule": problems[0][0], "history": "random"},
+                              {"trace": trace, "detail": problems[0][1]})
+                break
+        res.case(repr((shard["rs"], i)))
+        res.count("random-histories")
+        if i % 401 == 0:
+            res.sample({"workload": "random-histories", "trace": trace[:6]}, 1)
+
+
 def run_shard(tier, shard, res: Result):
     if shard["w"] == "histories":
         run_histories(res)
+        return
+    if shard["w"] == "random-histories":
+        run_random_histories(shard, res)
         return
     cases = connect_cases()
     s, e = shard["range"]
